@@ -21,14 +21,17 @@ CLAIMS = {
 
 CLAIMS['C12'] = {
     'text': 'Lean theorems over the L0 model of the wire codec (packet/chunk/param/error-cause marshal and unmarshal, all 17 chunk types, '
-            '11 parameter kinds, 5 cause kinds), CRC uninterpreted: round trip dec(enc p)=p for every packet satisfying an explicit decidable '
-            'well-formedness predicate; locality (a chunk is decoded from its own length bytes, bundling changes nothing); chunkHeader/BE/padding '
-            'lemmas. Re-encode stability of ARBITRARY accepted packets is only proved for well-formed ones (two counter-examples are known findings '
-            'with witness theorems). Model tied to the code by differential runs through packet.marshal/unmarshal (byte-for-byte, field-for-field, '
-            'error class for error class) and by round-trip / stability / locality predicates evaluated on the implementation outputs. '
-            'That the association only builds well-formed packets (C12_emitted_wf) is not part of this check.',
+            '11 parameter kinds, 5 cause kinds), CRC uninterpreted: (a) round trip dec(enc p)=p for every packet satisfying an explicit decidable '
+            'well-formedness predicate; (b) locality: a chunk is decoded from its own length bytes, bundling changes nothing (no hypothesis on the '
+            'chunk body); (c) re-encode stability for EVERY accepted byte string except two decoded shapes, which are known findings with witness '
+            'theorems and replayed witnesses (empty HEARTBEAT-ACK; INIT whose last parameter is 4 bytes long); (d) the model\'s type dispatch equals '
+            'the dispatch tables the translator reads off the Go switches; chunkHeader/BE16/BE32/padding lemmas. '
+            'Model tied to the code by differential runs through packet.marshal/unmarshal (byte-for-byte, field-for-field, error class for error class) '
+            'and by round-trip / stability / locality predicates evaluated on the implementation outputs. '
+            'That the association only builds well-formed packets (C12_emitted_wf) is NOT part of this check.',
     'note': NOTE_COMMON,
-    'technique': 'Lean 4 proof (structural induction over the encoders, shift-invariance of the decoder loops) + model/implementation differential replay',
+    'technique': 'Lean 4 proof (structural induction over the encoders, shift-invariance of the decoder loops, well-formedness of decoder outputs) '
+                 '+ translator-generated dispatch facts + model/implementation differential replay',
 }
 CLAIMS['C13'] = {
     'text': 'Packet-level decision logic only: the exact acceptance rule of packet.unmarshal and the emission rule of packet.marshal / '
